@@ -885,7 +885,7 @@ func (g *gen) request(kind string, malformed bool, large bool) (cols []Col, sz i
 		n, class = 2+int64(r.Intn(5)), "few"
 	default:
 		if g.nextRid < 30000 && large {
-			n, class = 2000+int64(r.Intn(9000)), "large"
+			n, class = 2000+int64(r.Intn(largeSpan)), "large"
 		} else {
 			n, class = 7, "few"
 		}
@@ -1096,8 +1096,12 @@ func (g *gen) runGenerated(c *Case) {
 	rn.finish()
 }
 
+// largeSpan: a request of the class "large" has 2000 .. 2000+largeSpan rows (the quick tier passes a smaller span)
+var largeSpan = 9000
+
 func main() {
 	level := flag.Int("level", 1, "1 = service scripts, 2 = HTTP handlers with retry")
+	flag.IntVar(&largeSpan, "largespan", 9000, "rows of a large request: 2000 .. 2000+largespan")
 	f := hx.ParseFlags()
 	config.Cloki = clconfig.New(clconfig.CLOKI_WRITER, nil, "", "")
 	service.CreateColPools(0)
